@@ -1124,6 +1124,7 @@ fn quote_into_trait(input: &DataType, ctx: &ImplContext, pre_init: Option<TokenS
 
     let body = match post_init {
         Some(post_init) => quote! {
+            #pre_init
             let mut obj: #dst = Default::default();
             #init
             #post_init
@@ -1153,6 +1154,7 @@ fn quote_try_into_trait(input: &DataType, ctx: &ImplContext, pre_init: Option<To
 
     let body = match post_init {
         Some(post_init) => quote! {
+            #pre_init
             let mut obj: #dst = Default::default();
             #init
             #post_init
